@@ -231,8 +231,9 @@ namespace Pistache::Http::Mime
                 cursor.advance(1);
             }
 
-            else if (match_literal('q', cursor))
+            else if ((cursor.current() == 'q' || cursor.current() == 'Q') && (cursor.remaining() == 1 || cursor.next() == '='))
             {
+                cursor.advance(1);
 
                 if (cursor.eof())
                     raise("Invalid quality factor");
